@@ -476,6 +476,7 @@ func (c *Ctx) exportedOps() []*ssa.Function {
 func ruleTX3(c *Ctx) []Ob {
 	o := newObs(c, "TX3")
 	tw := &txCounter{c: c, memo: map[*ssa.Function]int{}, busy: map[*ssa.Function]bool{}}
+	ta := &txCounter{c: c, memo: map[*ssa.Function]int{}, busy: map[*ssa.Function]bool{}, any: true}
 	for _, fn := range c.exportedOps() {
 		if c.eff(fn)&(EffBeginR|EffBeginW) == 0 {
 			continue
@@ -490,6 +491,17 @@ func ruleTX3(c *Ctx) []Ob {
 			o.add(VIOLATED, key, pos, "up to %d write transactions on one path: a failure, crash or concurrent reader between them sees the first one committed", n)
 		default:
 			o.add(OK, key, pos, "at most %d write transaction on every path", n)
+		}
+		// an operation that writes must do its reads in the same transaction (no check-then-act
+		// across two transactions)
+		if n >= 1 {
+			na := ta.max(fn)
+			k2 := c.fname(fn) + "/single transaction for read and write"
+			if na > 1 {
+				o.add(VIOLATED, k2, pos, "the operation opens %d transactions on one path, one of them for writing: what it read in the other one (an existence check, a lookup) can be stale when it writes - check-then-act across transactions is not atomic under concurrency", na)
+			} else {
+				o.add(OK, k2, pos, "the write transaction is the only transaction of the operation")
+			}
 		}
 	}
 	// no transaction is opened while another one is held by the same function
